@@ -1,4 +1,4 @@
-import GoLucene
+import GoLucene.ModelAll
 /-
   modeld — line-protocol driver of the executable model (core Lean only; compiled as a `lean_exe`).
 
@@ -122,6 +122,22 @@ def opSpec (name : String) (args : List String) : String :=
        if !validateExpr e then "0:the tree does not pass the model of expr.Validate"
        else if !wellFormed e then "0:the tree fails the independent shape check (field positions / range bounds / value lists / unary operands / patterns)"
        else "1"
+     | none => "0:unreadable tree")
+  | "c03", [meaning, sql] =>
+    (match parseCanonExpr meaning with
+     | some m => specC03 m (hexOr sql)
+     | none => "0:unreadable meaning tree")
+  | "c02", [tree, sql, param, n] =>
+    (match parseCanonExpr tree with
+     | some t => specC02 t (hexOr sql) (param == "1") (n.toNat?.getD 0)
+     | none => "0:unreadable tree")
+  | "c04", [tree, inline, psql, params] =>
+    (match parseCanonExpr tree with
+     | some t =>
+       let ps := if params.isEmpty then some [] else (params.splitOn ",").mapM parsePrimTok
+       (match ps with
+        | some l => specC04 t (hexOr inline) (hexOr psql) l
+        | none => "0:unreadable parameter list")
      | none => "0:unreadable tree")
   | _, _ => "bad-spec"
 
